@@ -1,7 +1,7 @@
 (* C12 -- the theorems about the PacketTunnelIOGateway model, assembled from parts 1-4. *)
 From Coq Require Import List Arith NArith Bool Lia.
 From Coq Require Import Strings.Byte.
-From Muscle Require Import Common.LE Gen.Consts Gw.Tunnel Gw.TunnelProofs Gw.TunnelSound Gw.TunnelSender Gw.TunnelComplete.
+From Muscle Require Import Common.LE Gen.Consts Gw.Tunnel Gw.TunnelProofs Gw.TunnelSound Gw.TunnelSender Gw.TunnelComplete Gw.TunnelDrain.
 Import ListNotations.
 Local Open Scope N_scope.
 
@@ -152,6 +152,56 @@ Proof.
   apply H2. exact H.
 Qed.
 
+Lemma srun_app c ops1 ops2 st :
+  srun c st (ops1 ++ ops2) =
+    let '(st1, p1) := srun c st ops1 in let '(st2, p2) := srun c st1 ops2 in (st2, p1 ++ p2).
+Proof.
+  revert st. induction ops1 as [|o ops1 IH]; intros st; cbn [app srun].
+  - destruct (srun c st ops2). reflexivity.
+  - destruct (sstep c st o) as [st1 p1]. rewrite IH.
+    destruct (srun c st1 ops1) as [st2 p2]. destruct (srun c st2 ops2) as [st3 p3]. now rewrite app_assoc.
+Qed.
+
+Lemma added_app ops1 ops2 : added (ops1 ++ ops2) = added ops1 ++ added ops2.
+Proof. induction ops1 as [|[m|mb bud|id] ops1 IH]; cbn [app added]; [reflexivity| |exact IH|exact IH]. now rewrite IH. Qed.
+
+Lemma no_setid_app ops1 ops2 : no_setid ops1 -> no_setid ops2 -> no_setid (ops1 ++ ops2).
+Proof. induction ops1 as [|[m|mb bud|id] ops1 IH]; cbn [app no_setid]; tauto. Qed.
+
+(* Corollary: any script at all, followed by one DoOutput call that is not cut short (byte limit and
+   transport budget above what [out_fuel] bounds): EVERY Message that fits the receiver's limit is
+   delivered, exactly once, in order. *)
+Theorem tunnel_complete_drained :
+  forall rc c a id0 ops mb bud t0,
+    scfg_ok c -> compat c rc -> id0 < two32 -> no_setid ops ->
+    N.of_nat (length (added ops)) <= two32 ->
+    Forall (fun m => lenN m < two32) (added ops) ->
+    (let st1 := fst (srun c (s_init id0) ops) in
+     N.of_nat (out_fuel st1) * sc_mtu c < mb /\ N.of_nat (out_fuel st1) <= bud) ->
+    tbl_wf t0 -> tbl_find a t0 = None ->
+    snd (recv_all rc t0 (map (pair a) (snd (srun c (s_init id0) (ops ++ [SOut mb bud])))))
+    = map (pair a) (filter (fits rc) (added ops)).
+Proof.
+  intros rc c a id0 ops mb bud t0 Hc Hcompat Hid Hns Hlen Hsz Hbig Hwf Hnone.
+  destruct (srun c (s_init id0) (ops ++ [SOut mb bud])) as [st pkts] eqn:Hrun.
+  assert (Hadd : added (ops ++ [SOut mb bud]) = added ops) by (rewrite added_app; cbn; apply app_nil_r).
+  assert (Hns2 : no_setid (ops ++ [SOut mb bud])) by (apply no_setid_app; cbn; auto).
+  (* the last call drains the sender *)
+  assert (Hdr : s_q st = [] /\ s_pkt st = []).
+  { rewrite srun_app in Hrun. destruct (srun c (s_init id0) ops) as [st1 p1] eqn:E1. cbn [fst] in Hbig.
+    cbn [srun] in Hrun. destruct (sstep c st1 (SOut mb bud)) as [st2 p2] eqn:E2.
+    injection Hrun as <- <-.
+    destruct Hc as (Hc1 & Hc2 & Hc3).
+    destruct (srun_spec c id0 ops [] [] _ _ _ Hc3 Hns (sinv_init _ _) E1) as (fss & _ & [(pend & _ & Hch) Hpsz] & _).
+    destruct Hbig as [Hb1 Hb2].
+    eapply sstep_out_drains; try eassumption.
+    eapply chain_cursor; [exact Hch|now left]. }
+  destruct Hdr as [Hq Hp].
+  rewrite <- Hadd in Hlen, Hsz.
+  destruct (tunnel_complete rc c a id0 _ st pkts t0 Hc Hcompat Hid Hns2 Hlen Hsz Hrun Hp Hwf Hnone) as (done & Hd & Hout).
+  rewrite Hq, app_nil_r in Hd. cbn [snd]. rewrite Hout, <- Hd, Hadd. reflexivity.
+Qed.
+
 (* ------------------------------------------------------------------ the edge of the guarantee *)
 
 (* Message ids wrap at 2^32 by design.  Two same-length Messages whose ids coincide (2^32 apart in the
@@ -184,11 +234,16 @@ Definition ex_ops : list sop :=
   [SAdd (repeat x41 9); SAdd []; SOut 4294967295 1; SAdd (repeat x42 30); SOut 4294967295 100].
 Definition ex_run : sender_run := mkRun ex_cfg 4294967295 ex_ops.
 
+Ltac dec := vm_compute; (reflexivity || discriminate || exact I).
+
 Example ex_run_ok : sr_ok ex_run /\ sc_mtu (sr_cfg ex_run) <= rc_mtu ex_rc /\ compat ex_cfg ex_rc.
 Proof.
-  unfold sr_ok, scfg_ok, compat. cbn [sr_cfg sr_id0 sr_ops ex_run].
-  repeat split; try (vm_compute; reflexivity); try (vm_compute; discriminate).
-  repeat constructor; vm_compute; reflexivity.
+  split; [|split].
+  - unfold sr_ok, scfg_ok. cbn [sr_cfg sr_id0 sr_ops ex_run].
+    split; [split; [dec|split; dec]|]. split; [dec|]. split; [dec|]. split; [dec|].
+    unfold sr_msgs. cbn [sr_ops ex_run ex_ops added]. repeat constructor; dec.
+  - dec.
+  - unfold compat. split; [dec|split; dec].
 Qed.
 
 Example ex_run_nontrivial :
